@@ -209,6 +209,8 @@ let run_case (line : string) : string =
     let hold_tokens idx out =
       match holds with
       | [] -> []
+      (* shape mode: which update is held depends on what the frames say, which the rejecting parser does not know *)
+      | _ when not !full -> ["*"]
       | _ ->
           let held = match idx with None -> None | Some i -> Stdlib.List.nth_opt out (int_of_nat i) in
           (match held with
